@@ -129,7 +129,7 @@ def programs():
 def main():
     progs = programs()
     g = ["// @generated by gen.py -- do not edit by hand.",
-         "#![allow(clippy::all, unused_variables)]",
+         "#![allow(clippy::all, unused_variables, non_snake_case)]",
          "use hydro_lang::prelude::*;",
          "",
          "use crate::adapt::*;",
